@@ -1,6 +1,9 @@
 package sim
 
-import "fmt"
+import (
+	"fmt"
+	"sort"
+)
 
 // Edit scripts derive one table from another (C04 diff pairs, C05 branches).
 type Edit struct {
@@ -118,4 +121,27 @@ func DedupeByKey(cols, pk []string, rows [][]string) [][]string {
 		out = append(out, r)
 	}
 	return out
+}
+
+// withEdgeDuplicates returns rows plus repeated lines of the rows that end or start a
+// block in key order (positions 254, 255, 509, 510, ...): ingest drops the duplicates.
+func withEdgeDuplicates(cols, pk []string, rows [][]string) [][]string {
+	pkIdx, _ := pkIndices(cols, pk)
+	order := make([]int, len(rows))
+	for i := range order {
+		order[i] = i
+	}
+	sort.SliceStable(order, func(a, b int) bool { return lessKey(keyOf(rows[order[a]], pkIdx), keyOf(rows[order[b]], pkIdx)) })
+	input := append([][]string(nil), rows...)
+	for _, pos := range []int{254, 255, 509, 510, 764, 765} {
+		if pos < len(order) {
+			dup := append([]string(nil), rows[order[pos]]...)
+			if pos%2 == 0 {
+				input = append(input, dup)
+			} else {
+				input = append([][]string{dup}, input...)
+			}
+		}
+	}
+	return input
 }
